@@ -1109,6 +1109,16 @@ int main(int argc, char **argv) {
     e.stub_components = {"caller threads (fibers under the seeded scheduler)", "memcpy/memset/memmove (wrapped: checked, then forwarded to libc)"};
     e.assumptions = {"sequentially consistent interleavings at instrumented-access granularity (no weak-memory effects)",
                      "only calls valid under their documented preconditions are generated", "loads from writable static storage that nobody writes are counted, not reported"};
+    {   // public functions that appeared in the headers and that nothing here calls: said out loud, and recorded as an assumption
+        std::string un;
+        for (unsigned i = 0; i < bind_nformats; i++)
+            for (unsigned k = 0; k < bind_formats[i]->nfuncs; k++)
+                if (bind_formats[i]->funcs[k].kind == 7) un += std::string(un.empty() ? "" : ", ") + bind_formats[i]->funcs[k].name;
+        if (!un.empty()) {
+            fprintf(stderr, "warning: public functions not exercised by any generated call or driver: %s\n", un.c_str());
+            e.assumptions.push_back("NOT EXERCISED (no generated call, no driver): " + un);
+        }
+    }
     e.quick_runs = 13800;
     e.thorough_runs = 690000;
     e.quick_wall_cap = 150;
